@@ -274,7 +274,8 @@ def histories(draw, tier):
     # how sample indices are passed to writer and reader: Python ints, or the numpy integers that index arithmetic yields
     at = draw(st.sampled_from(["int", "int", "i64", "u64"]))
     # clock of the host that is writing the (unfinished) next file, relative to this one: the same, or ahead by 5 min / 3 h
-    return {"p": p, "specs": specs, "steps": steps, "queries": queries, "at": at, "junk_skew": draw(st.sampled_from([0, 0, 300, 10800]))}
+    return {"p": p, "specs": specs, "steps": steps, "queries": queries, "at": at, "junk_skew": draw(st.sampled_from([0, 0, 300, 10800])),
+            "readonly": draw(st.integers(0, 3)) == 0}
 
 
 def strategy(tier):
@@ -450,6 +451,16 @@ def run_case(case, visible_hook=None):
                 with open(jp, "wb") as f_:
                     f_.write(b"\x89HDF\r\n\x1a\n" + b"\0" * 40)
                 junk = jp
+        ro_paths = []
+        from vlib import unpriv
+        if case.get("readonly") and unpriv.ENFORCED:
+            # the channel is an archive nobody may modify (files r--r--r--, directories r-xr-xr-x): reading needs no more
+            res.cls("read-only-archive")
+            for dp_, _dn, fn_ in os.walk(md):
+                ro_paths.append((dp_, 0o555))
+                ro_paths.extend((os.path.join(dp_, f_), 0o444) for f_ in fn_ if os.path.join(dp_, f_) != junk)
+            for p_, m_ in ro_paths:
+                os.chmod(p_, m_)
         for qi, q in enumerate(case["queries"]):
             res.evaluations += 1
             if junk is not None and os.path.exists(junk):
@@ -507,6 +518,8 @@ def run_case(case, visible_hook=None):
                         fail("flatdict-index", "read_flatdict(%d,%d) index %r expected %r" % (a, b, list(fd["index"])[:8], inr[:8]))
             except Exception as e:
                 fail("query-exception:%s:%s" % (q["q"], type(e).__name__), "%r: %s" % (q, e))
+        for p_, m_ in ro_paths:
+            os.chmod(p_, 0o755 if m_ == 0o555 else 0o644)
         if junk is not None and not os.path.exists(junk):
             fail("reader-removed-file-being-written", "%s (created seconds ago by another process) was deleted by a read" % os.path.relpath(junk, md))
     res.nontrivial = nt
